@@ -1,9 +1,55 @@
 """C07 single-use attribution (engine M). Sequential histories by induction; schedules are outside (DESIGN.md 4/C07)."""
 from mcommon import *
+from p_c08 import derives, implied
 
 
 def pure(engine, fr, callee, args, site, ret_ty):
     return engine.conv(callee.split("::")[-1], engine.peel(args[0]))
+
+
+def check_claims_unit(rep, ctx):
+    """'caller claims ... derive from that record': what Claims::from_audit_entry (left uninterpreted above) makes of the record -
+    elevated exactly when the kernel's is_admin is 1, the user id is the record's logon id and is the one looked up, the process is the
+    record's process id"""
+    try:
+        w = ctx.method("Claims", "from_audit_entry") + "::{closure#0}"
+    except Inconclusive as ex:
+        rep.add(Query("Claims::from_audit_entry located", "inconclusive", str(ex), 0, "mirsym", key="C07.claims-unit"))
+        return
+    f = {n: ctx.field("AuditEntry", n) for n in ("logon_id", "process_id", "is_admin")}
+    c = {n: ctx.field("Claims", n) for n in ("userId", "processId", "runAsElevated", "userName", "processFullPath", "processCmdLine", "processName", "clientIp", "clientPort")}
+    eng = ctx.engine(loop_bound=1)
+    n = 0
+    for i, r in enumerate(eng.explore(w)):
+        if not (r.status == "return" and isinstance(r.ret, Agg) and r.ret.variant == "Ok"):
+            continue
+        cl = r.ret.fields[0]
+        if not isinstance(cl, Agg):
+            rep.add(Query("from_audit_entry path %d: claims value is built in place" % i, "inconclusive", repr(cl)[:80], 0, "mirsym", key="C07.claims-unit"))
+            continue
+        n += 1
+        env = origin(r.args[0])
+        entry = env.child(("f", 0)).child("*")
+        adm = entry.child(("f", f["is_admin"]))
+        el = cl.fields[c["runAsElevated"]]
+        ok_el = isinstance(el, Scalar)
+        if ok_el:
+            av = adm.scalar("i32")
+            # the eBPF program writes 0 or 1 (C06): any spelling that agrees with `== 1` on those two values is the same claim
+            rs, _m, _dt, _zm = check_sat(r.pc + [z3.Or(av == 0, av == 1), el.e != (av == z3.BitVecVal(1, 32))])
+            ok_el = rs == "unsat"
+        rep.add(Query("from_audit_entry path %d: runAsElevated <=> the record's is_admin is 1 (for the values 0 / 1 the kernel writes)" % i, "holds" if ok_el else "violated", repr(el)[:80], 0, "mirsym+z3", key="C07.claims-unit.elevated", reproduced=None))
+        gu = [e for e in r.events if e.kind == "await" and e.callee.endswith("get_user")]
+        fp = [e for e in r.events if e.kind == "call" and e.callee.endswith("from_pid")]
+        ok_id = same_origin(cl.fields[c["userId"]], entry.child(("f", f["logon_id"]))) and len(gu) == 1 and same_origin(gu[0].rargs[0], entry.child(("f", f["logon_id"]))) and \
+            derives(cl.fields[c["userName"]], gu[0].ret, r.events)
+        rep.add(Query("from_audit_entry path %d: user id = the record's logon id, user name / groups from the lookup of that id" % i, "holds" if ok_id else "violated", "", 0, "mirsym", key="C07.claims-unit.user", reproduced=None))
+        ok_p = len(fp) == 1 and same_origin(fp[0].rargs[0], entry.child(("f", f["process_id"]))) and all(derives(cl.fields[c[k]], fp[0].ret, r.events) for k in ("processId", "processFullPath", "processCmdLine", "processName"))
+        rep.add(Query("from_audit_entry path %d: process id, path, name and command line come from the record's process id" % i, "holds" if ok_p else "violated", "", 0, "mirsym", key="C07.claims-unit.process", reproduced=None))
+        ok_c = derives(cl.fields[c["clientIp"]], env.child(("f", 1)), r.events) and same_origin(cl.fields[c["clientPort"]], env.child(("f", 2)))
+        rep.add(Query("from_audit_entry path %d: client address = the accepted socket's peer" % i, "holds" if ok_c else "violated", "", 0, "mirsym", key="C07.claims-unit.client", reproduced=None))
+    rep.functions_encoded.append(w)
+    rep.add(Query("witness: from_audit_entry has a succeeding path", "witness-hit" if n else "witness-missed", "%d" % n, 0, "mirsym"))
 
 
 def check(rep, tier, seed):
@@ -173,7 +219,8 @@ def check(rep, tier, seed):
     rep.bounds["induction"] = "one accept from an arbitrary audit-map state; after an attributed accept the record is removed (bpf_map_delete semantics, C06), so a later accept on the same port without a new kernel record takes the unattributed path"
     rep.assumptions += ["remove_audit failure is only logged (stated in the design: the record then survives until LRU eviction)", "Future::poll returns Ready"]
     rep.outside_claim += ["schedules: two accepts racing on one source port between lookup and remove (separate lock acquisitions); Kani/mirsym do not model tokio's scheduler",
-                          "Claims::from_audit_entry internals (process inspection)"]
+                          "how Process::from_pid and get_user inspect the process / user database"]
+    check_claims_unit(rep, ctx)
     rep.trusted += ["mirsym", "z3"]
     import batteries
     batteries.confirm(rep, "C07")
